@@ -32,9 +32,11 @@ Assignable(ms, n, v, mn, mx, uniq) ==
 Auto(h, mx) == IF h = NONE THEN 0 ELSE IF h = mx THEN NONE ELSE h + 1
 
 \* one member statement: returns [ok, val]
+\* ODD: an explicit value whose spelling is not an integer-value of RFC 7950 (hexadecimal, a leading plus, ...)
+ODD == 777777
 Step(ms, h, n, x, mn, mx, uniq) ==
   LET v == IF x # NONE THEN x ELSE Auto(h, mx)
-  IN IF v = NONE THEN [ok |-> FALSE, val |-> NONE]
+  IN IF v = NONE \/ x = ODD THEN [ok |-> FALSE, val |-> NONE]
      ELSE [ok |-> Assignable(ms, n, v, mn, mx, uniq), val |-> v]
 
 Op(n, x) ==
